@@ -123,7 +123,10 @@ def effects_under(fn, stmts, val, env=None, keep=(), loops='stop', nm=None, open
         return any(x['k'] in ('BinaryOperator', 'CompoundAssignOperator', 'CXXOperatorCallExpr', 'UnaryOperator', 'CallExpr',
                               'CXXMemberCallExpr', 'ReturnStmt') and
                    (x.get('op') in ('=', '+=', '-=', '|=', '&=', '^=', '++', '--', '<<', '>>', '<<=', '>>=') or x['k'] in ('CallExpr', 'CXXMemberCallExpr', 'ReturnStmt'))
-                   for x in walk(st))
+                   for x in walk(st)) or any(x['k'] in ('BreakStmt', 'ContinueStmt') and
+                                             not any(a['k'] in ('SwitchStmt', 'ForStmt', 'WhileStmt', 'DoStmt', 'CXXForRangeStmt') and a is not st and
+                                                     any(y is a for y in walk(st)) for a in fn.ancestors(x))
+                                             for x in walk(st))
 
     def switch_body(sw, value):
         body = kids(sw)[-1]
@@ -249,6 +252,9 @@ def effects_under(fn, stmts, val, env=None, keep=(), loops='stop', nm=None, open
                         if out and out[-1] == 'continue':
                             out.pop()
                             continue
+                        if out and out[-1] == 'break':
+                            out.pop()
+                            break
                         return True
             elif k in ('ForStmt', 'WhileStmt', 'DoStmt', 'CXXForRangeStmt'):
                 if loops == 'stop' and has_effect(st):
@@ -266,6 +272,9 @@ def effects_under(fn, stmts, val, env=None, keep=(), loops='stop', nm=None, open
             elif k in ('NullStmt', 'BreakStmt', 'ContinueStmt'):
                 if k == 'ContinueStmt':
                     out.append('continue')
+                    return True
+                if k == 'BreakStmt':
+                    out.append('break')
                     return True
                 continue
             else:
